@@ -56,3 +56,15 @@ TABLES = sorted(set(list(TABLES) + ['t_src_state', 't_content', 't_cli']))
 # dictionary is proved equal to the translation (Props/SRCsubset.v)
 COQ_PROPS = list(COQ_PROPS) + ['Props/SRCsubset.v']
 THEOREMS = list(THEOREMS) + ['SRC_copy_slice_step', 'SRC_copy_slice']
+
+
+# source tie, stage C2 (integrator): _copy_sample TRANSLATED in state-passing form; copy_sample_k folded over the source class dictionary
+# is proved equal to the translation (Props/SRCsample.v)
+COQ_PROPS = list(COQ_PROPS) + ['Props/SRCsample.v']
+THEOREMS = list(THEOREMS) + ['SRC_copy_sample_step', 'SRC_copy_sample']
+
+
+# source tie, stage C3 (integrator): get_subset as a whole TRANSLATED (class-major) and proved to produce, on to_content e, a content that
+# Holds exactly the hand model's get_subset result (Props/SRCgetsubset.v, success-case form)
+COQ_PROPS = list(COQ_PROPS) + ['Props/SRCgetsubset.v']
+THEOREMS = list(THEOREMS) + ['SRC_get_subset_content', 'SRC_get_subset']
